@@ -55,6 +55,7 @@ public:
 	Session* getSession(CK_SESSION_HANDLE hSession);
 	bool haveSession(CK_SLOT_ID slotID);
 	bool haveROSession(CK_SLOT_ID slotID);
+	CK_RV loginSO(Slot* slot, ByteString& pin);
 
 private:
 	// The sessions
